@@ -2644,14 +2644,17 @@ public:
     //! implemented using erase_one().
     size_type erase(const key_type& key)
     {
+        if (!allow_duplicates)
+            return erase_one(key) ? 1 : 0;
+
+        // the key may be a reference to (the key of) one of the items erased
+        // here, e.g. erase(*iter): after the first erase_one() it would refer
+        // to another item or to a freed leaf, so keep a copy of it.
+        const key_type key_copy(key);
         size_type c = 0;
 
-        while (erase_one(key))
-        {
+        while (erase_one(key_copy))
             ++c;
-            if (!allow_duplicates)
-                break;
-        }
 
         return c;
     }
